@@ -31,6 +31,22 @@ fn verif_replay() {
                 Err(_) => println!("VERIF-OUTCOME {}", serde_json::json!({"panicked": true})),
             }
         }
+        "cache" => {
+            let t = a["timeout"].as_u64().unwrap_or(300);
+            let k1 = (a["set"][0].as_str().unwrap().to_string(), a["set"][1].as_str().unwrap().to_string());
+            let k2 = (a["check"][0].as_str().unwrap().to_string(), a["check"][1].as_str().unwrap().to_string());
+            let v = a["verdict"].as_bool().unwrap_or(true);
+            let rt = tokio::runtime::Builder::new_current_thread().enable_all().build().unwrap();
+            let r = catch_unwind(AssertUnwindSafe(|| rt.block_on(async {
+                let c = Cache { timeout: t, data: Default::default() };
+                c.set(&k1, v).await;
+                c.check(&k2).await
+            })));
+            match r {
+                Ok(h) => println!("VERIF-OUTCOME {}", serde_json::json!({"panicked": false, "hit": h.is_some(), "same": k1 == k2, "value": h})),
+                Err(_) => println!("VERIF-OUTCOME {}", serde_json::json!({"panicked": true})),
+            }
+        }
         d => println!("VERIF-OUTCOME {}", serde_json::json!({"unknown_driver": d})),
     }
 }
